@@ -53,6 +53,8 @@ pub struct Profile {
     pub p_custom_ws: u32,
     pub p_nullable_rule: u32,
     pub p_override_in_brackets: u32,
+    pub p_shared_prefix: u32,
+    pub p_twin: u32,
     pub user_ctx: bool,
 }
 
@@ -100,6 +102,8 @@ impl Profile {
             p_custom_ws: 0,
             p_nullable_rule: 50,
             p_override_in_brackets: 30,
+            p_shared_prefix: 12,
+            p_twin: 0,
             user_ctx: false,
         }
     }
@@ -166,6 +170,9 @@ impl Profile {
             "memo" => {
                 p.name = "memo";
                 p.p_memoize = 110;
+                p.p_shared_prefix = 130;
+                p.p_nullable_rule = 90;
+                p.w_opt = 10;
                 p.w_choice = 16;
                 p.w_anon = 16;
                 p.w_field = 16;
@@ -177,6 +184,7 @@ impl Profile {
             }
             "ws" => {
                 p.name = "ws";
+                p.p_twin = 70;
                 p.p_no_skip_ws = 110;
                 p.p_custom_ws = 90;
                 p.w_include = 8;
@@ -187,6 +195,20 @@ impl Profile {
                 p.w_not = 5;
                 p.w_and = 4;
                 p.p_position = 40;
+                p
+            }
+            "memows" => {
+                p.name = "memows";
+                p.p_twin = 170;
+                p.p_no_skip_ws = 110;
+                p.p_custom_ws = 30;
+                p.p_memoize = 100;
+                p.p_position = 70;
+                p.p_shared_prefix = 80;
+                p.w_anon = 14;
+                p.w_field = 18;
+                p.k_string = 4;
+                p.w_include = 4;
                 p
             }
             "pos" => {
@@ -228,7 +250,9 @@ impl Profile {
             }
             "mixed" => {
                 p.name = "mixed";
-                p.p_memoize = 50;
+                p.p_twin = 40;
+                p.p_memoize = 70;
+                p.p_shared_prefix = 70;
                 p.p_check = 40;
                 p.k_extern = 2;
                 p.k_string = 3;
@@ -397,7 +421,7 @@ impl<'a, 'b> Gen<'a, 'b> {
         let mut s = String::new();
         for _ in 0..len {
             if insensitive {
-                let pool: &[char] = &['a', 'B', 'c', 'X', 'y', 'Z', '0', '-', 'k', 'K', 's', 'I', 'i'];
+                let pool: &[char] = &['a', 'B', 'c', 'X', 'y', 'Z', '0', '-', 'k', 'K', 's', 'I', 'i', '_', '@', '[', ']', '^', '{', '|', '}', '~', '`', '\\', '\t', ' ', '!', '?', '\x7f'];
                 s.push(*self.src.choose(pool));
             } else {
                 s.push(self.lit_char());
@@ -560,6 +584,35 @@ impl<'a, 'b> Gen<'a, 'b> {
                     parts.push(e);
                 }
                 Expr::Seq(parts)
+            }
+            2 if self.src.chance(p.p_shared_prefix) => {
+                // alternatives sharing a prefix: `P x | P y | P z` (the prefix is re-attempted at one offset)
+                let n = 2 + self.src.weighted(&[6, 4, 1]);
+                let prefix = if self.src.chance(200) {
+                    match self.ref_target(ctx, true) {
+                        Some(t) => {
+                            if ctx.mode == Mode::Named && !ctx.in_look && self.src.chance(128) {
+                                let name = self.field_name();
+                                Expr::Ref { field: FieldName::Named(name), boxed: false, typ: t }
+                            } else {
+                                Expr::anon(&t)
+                            }
+                        }
+                        None => self.gen_expr(depth - 1, ctx),
+                    }
+                } else {
+                    self.gen_expr(depth - 1, ctx)
+                };
+                let mut c = ctx;
+                if self.is_nonnull(&prefix) {
+                    c.left = false;
+                }
+                let mut arms = vec![];
+                for k in 0..n {
+                    let rest = if k == n - 1 && self.src.chance(40) { Expr::Seq(vec![]) } else { self.gen_expr((depth - 1).min(2), c) };
+                    arms.push(Expr::Seq(vec![prefix.clone(), rest]));
+                }
+                Expr::Choice(arms)
             }
             2 => {
                 let n = 2 + self.src.weighted(&[8, 4, 1]);
@@ -816,6 +869,92 @@ impl<'a, 'b> Gen<'a, 'b> {
         }
     }
 
+    /// "twin" callers: a copy of a rule with the opposite whitespace setting and a different tail, both tried
+    /// as alternatives of the first rule, so that one callee is reached at (nearly) the same offsets from a
+    /// skipping and a non-skipping context within one parse
+    fn add_twin(&mut self, g: &mut Grammar) {
+        let cands: Vec<usize> = g
+            .rules
+            .iter()
+            .enumerate()
+            .skip(1)
+            .filter(|(_, r)| match r {
+                RuleDef::Normal(n) => {
+                    matches!(&n.body, Expr::Seq(parts) if parts.len() >= 2 && parts.iter().any(|p| {
+                        let mut has_ref = false;
+                        p.walk(&mut |e| if matches!(e, Expr::Ref { typ, .. } if typ != "char") { has_ref = true });
+                        has_ref
+                    })) && !n.leftrec() && n.name != "Whitespace"
+                }
+                _ => false,
+            })
+            .map(|(i, _)| i)
+            .collect();
+        if cands.is_empty() {
+            return;
+        }
+        let j = cands[self.src.pick(cands.len())];
+        let orig = match &g.rules[j] {
+            RuleDef::Normal(n) => n.clone(),
+            _ => return,
+        };
+        let mut twin = orig.clone();
+        twin.name = format!("{}Tw", orig.name);
+        if twin.no_skip_ws() {
+            twin.remove(&Directive::NoSkipWs);
+        } else {
+            twin.add(Directive::NoSkipWs);
+        }
+        twin.remove(&Directive::Export);
+        if let Expr::Seq(parts) = &mut twin.body {
+            let tail = self.nonempty_literal();
+            if self.src.chance(128) {
+                parts.push(tail);
+            } else {
+                let k = parts.len() - 1;
+                // keep fields of the last part out of the picture only if it has none
+                let mut has_field = false;
+                parts[k].walk(&mut |e| if matches!(e, Expr::Ref { field, .. } if *field != FieldName::None) { has_field = true });
+                if has_field {
+                    parts.push(tail);
+                } else {
+                    parts[k] = tail;
+                }
+            }
+        }
+        // the first normal rule referenced by the shared part becomes offset-sensitive: skipping and @position
+        let mut callee: Option<String> = None;
+        orig.body.walk(&mut |e| {
+            if let Expr::Ref { typ, .. } = e {
+                if callee.is_none() && matches!(g.find(typ), Some(RuleDef::Normal(_))) && *typ != orig.name {
+                    callee = Some(typ.clone());
+                }
+            }
+        });
+        if let Some(c) = callee {
+            if self.src.chance(200) {
+                if let Some(n) = g.normal_mut(&c) {
+                    n.remove(&Directive::NoSkipWs);
+                    if self.src.chance(180) {
+                        n.add(Directive::Position);
+                    }
+                }
+            }
+        }
+        let (first, second) = if self.src.chance(128) { (twin.name.clone(), orig.name.clone()) } else { (orig.name.clone(), twin.name.clone()) };
+        // exportable kinds only as named fields; aliases / strings are fine as field types too
+        let fname = "tw".to_string();
+        if let RuleDef::Normal(r0) = &mut g.rules[0] {
+            let old = std::mem::replace(&mut r0.body, Expr::Eoi);
+            r0.body = Expr::Choice(vec![
+                Expr::Ref { field: FieldName::Named(fname.clone()), boxed: false, typ: first },
+                Expr::Ref { field: FieldName::Named(fname), boxed: false, typ: second },
+                old,
+            ]);
+        }
+        g.rules.insert(j, RuleDef::Normal(twin));
+    }
+
     fn gen_custom_ws(&mut self) -> Vec<RuleDef> {
         // total by construction: a closure over terminals / a @no_skip_ws comment rule
         let mut alts = vec![];
@@ -854,6 +993,9 @@ impl<'a, 'b> Gen<'a, 'b> {
             self.gen_rule(i);
         }
         let mut g = Grammar { rules: self.rules.iter().flatten().cloned().collect() };
+        if self.src.chance(self.prof.p_twin) {
+            self.add_twin(&mut g);
+        }
         if self.src.chance(self.prof.p_custom_ws) {
             g.rules.extend(self.gen_custom_ws());
         }
